@@ -292,6 +292,38 @@ def f_frag( ctx ):
             res.ok( src, prog[0].stmt, 'every reply is asserted to carry at least one element ( beg < end ) before the range is returned' )
     else:
         res.bad( src, ret, 'progress assertion', 'beg < end must be asserted on every path to the return: an empty fragment makes the client loop forever' )
+    # ---- a byte offset is turned into an element index by dividing by the element size: for STRING / SSTRING that size is an ESTIMATE
+    #      ( struct_calcsize = 80 ), so a non-zero offset addresses the wrong elements ( offset 80 = "element 1" ) - acknowledged with success,
+    #      a write destroys elements of the previous fragment.  By value, the whole body on a record standing for the tag: such a request is
+    #      refused, the same request on fixed-size elements and on structures is served
+    from .fold import run_block as _run, Record as _Rec
+    def extent( tag, size, svc, cx ):
+        att = _Rec( parser=_Rec( struct_calcsize=size, tag_type=tag ), n=40 )
+        env = { 'self.RD_TAG_RPY': 0xCC, 'self.RD_FRG_RPY': 0xD2, 'self.WR_TAG_RPY': 0xCD, 'self.WR_FRG_RPY': 0xD3, 'self.MAX_BYTES': 500,
+                'resolve_element': lambda p_: ( 0, ), 'type': type, 'tuple': tuple, 'len': lambda x: x.n if isinstance( x, _Rec ) else len( x ),
+                'STRING.tag_type': 0xD0, 'SSTRING.tag_type': 0xDA, 'STRUCT.tag_type': 0x2A0, 'typed_data.datasize': lambda t, *a: 4,
+                fn.args.args[1].arg: att, fn.args.args[2].arg: { 'service': svc, 'path': 'P', 'read_frag': cx, 'write_frag': cx },
+                fn.args.args[3].arg: 'read_frag' if svc == 0xD2 else 'write_frag' }
+        try:
+            return _run( [ st for st in fn.body if not ( isinstance( st, ast.Expr ) and isinstance( st.value, ast.Constant )) ], env, ignore_calls=( 'log', )).kind
+        except NoFold as exc:
+            raise AnalysisError( 'Logix.reply_elements: not a decision fragment: %s' % exc )
+    cells_ = (( 'Read Tag Fragmented of STRING elements at offset 80', 0xD0, 80, 0xD2, { 'offset': 80, 'elements': 20 }, 'raise' ),
+               ( 'Read Tag Fragmented of SSTRING elements at offset 160', 0xDA, 80, 0xD2, { 'offset': 160, 'elements': 20 }, 'raise' ),
+               ( 'Write Tag Fragmented of STRING elements at offset 80', 0xD0, 80, 0xD3, { 'offset': 80, 'elements': 20, 'type': 0xD0, 'data': [ 'a' ] * 5 }, 'raise' ),
+               ( 'Read Tag Fragmented of STRING elements at offset 0', 0xD0, 80, 0xD2, { 'offset': 0, 'elements': 20 }, 'return' ),
+               ( 'Read Tag Fragmented of DINT elements at offset 80', 0xC4, 4, 0xD2, { 'offset': 80, 'elements': 30 }, 'return' ),
+               ( 'Read Tag Fragmented of structures at offset 80', 0x2A0, 8, 0xD2, { 'offset': 80, 'elements': 30 }, 'return' ))
+    for what, tag, size, svc, cx, want in cells_:
+        got = extent( tag, size, svc, cx )
+        res.cells += 1
+        if got != want:
+            res.bad( src, fn, 'Logix.reply_elements: %s is %s' % ( what, 'served' if got == 'return' else 'refused' ),
+                     'the size of a STRING / SSTRING element is an estimate: dividing a byte offset by it addresses other elements than the client means - a fragmented read returns the wrong strings with status 0x00 / 0x06, a fragmented write overwrites elements of the fragment before; only offset 0 can be served' if want == 'raise'
+                     else 'a continuation at a byte offset is how fixed-size elements and structures are transferred in fragments', func='Logix.reply_elements' )
+            break
+    else:
+        res.ok( src, fn, 'a non-zero byte offset into elements of indeterminate size is refused; fixed-size elements and structures are served ( %d cells )' % len( cells_ ))
     return res
 
 
